@@ -253,6 +253,15 @@ func (c *Conn) serve() {
 }
 
 func (c *Conn) pushFramesLoop() {
+	defer func() {
+		// this runs in its own goroutine, outside the recover of the
+		// connection handler
+		if e := recover(); e != nil {
+			log.Debugf("Frame pusher stopped: %v", e)
+			c.c.Close()
+		}
+	}()
+
 	for {
 		select {
 		case ur, ok := <-c.fbupc:
